@@ -53,6 +53,17 @@ function __llog(t, args){
   for (var i=0;i<args.length;i++) s+=","+__v(args[i]);
   __log+=(__log===""?"~":";")+s;
 }
+// a join supplied by the script: logs J, its this, arguments.length and the arguments, plays the next script entry
+function __userJoin(){
+  var s=__v("J")+","+__v(this)+","+__v(arguments.length);
+  for (var i=0;i<arguments.length;i++) s+=","+__v(arguments[i]);
+  __log+=(__log===""?"~":";")+s;
+  return __playq();
+}
+function __joinGetter(val){
+  return function(){ __log+=(__log===""?"~":";")+__v("G")+","+__v(this); return val; };
+}
+var __builtinJoin=Array.prototype.join;
 function __primLocale(){
   var t=(typeof this==="object" && this!==null) ? __v(this.valueOf()) : "prim";
   __llog(t, arguments);
@@ -86,7 +97,7 @@ function __sorted(xs, n){
 }
 function __dump(o){
   var names=Object.getOwnPropertyNames(o), is={}, ns={}, nI=0, nN=0;
-  for (var j=0;j<names.length;j++){ var k=names[j]; if (k==="length") continue;
+  for (var j=0;j<names.length;j++){ var k=names[j]; if (k==="length" || k==="join") continue;
     var d=Object.getOwnPropertyDescriptor(o,k);
     if (typeof d.value==="function") continue;
     var p=__v(d.value)+(d.writable?"1":"0")+(d.enumerable?"1":"0")+(d.configurable?"1":"0");
@@ -205,6 +216,9 @@ func jsVal(t string) string {
 }
 
 func jsKey(t string) string {
+	if t[0] == 'N' {
+		return jsVal(t[1:]) // a numeric subscript: a[-0], a[1], a[2.5]
+	}
 	b, err := hex.DecodeString(t[1:])
 	if err != nil || t[0] != 'k' {
 		panic("bad key token " + t)
@@ -303,6 +317,43 @@ func c08Script(f []string) string {
 		case "call":
 			var args []string
 			name := strings.TrimSuffix(p[1], "!")
+			// toString.<mode>.<src>: how toString is reached, and the join the receiver has during the call
+			mode, pre, post := "call", "", ""
+			if q := strings.Split(name, "."); len(q) == 3 {
+				name, mode = q[0], q[1]
+				own := func(v string) { pre = "a.join=" + v + ";"; post = "delete a.join;" }
+				acc := func(v string) {
+					pre = "Object.defineProperty(a,\"join\",{get:__joinGetter(" + v + "),configurable:true});"
+					post = "delete a.join;"
+				}
+				switch q[2] {
+				case "b", "none":
+				case "own":
+					own("__userJoin")
+				case "ownb":
+					own("__builtinJoin")
+				case "nc":
+					own("5")
+				case "und":
+					own("undefined")
+				case "acc":
+					acc("__userJoin")
+				case "accb":
+					acc("__builtinJoin")
+				case "accn":
+					acc("5")
+				case "proto", "pdel":
+					pre = "var P=Object.getPrototypeOf(Object(a)), pd=Object.getOwnPropertyDescriptor(P,\"join\");"
+					if q[2] == "proto" {
+						pre += "P.join=__userJoin;"
+					} else {
+						pre += "delete P.join;"
+					}
+					post = "if (pd) Object.defineProperty(P,\"join\",pd); else delete P.join;"
+				default:
+					panic("bad join source " + q[2])
+				}
+			}
 			if name == "sort" && p[2] != "" {
 				args = append(args, "undefined") // comparefn, then the surplus arguments
 			}
@@ -354,7 +405,23 @@ func c08Script(f []string) string {
 			if like {
 				call = "Array.prototype." + name + ".call(" + strings.Join(append([]string{"a"}, args...), ",") + ")"
 			}
+			switch mode {
+			case "add":
+				call = "(\"\"+a)"
+			case "str":
+				call = "String(a)"
+			case "eq":
+				call = "(a==\"x\")"
+			case "key":
+				call = "({x:\"hit\"})[a]"
+			}
+			if pre != "" {
+				sb.WriteString(pre + " try { ")
+			}
 			fmt.Fprintf(&sb, "__wrap=undefined; __log=\"\"; ci=0; rets=[%s]; var r; try { r=__v(%s); } catch(e) { r=__err(e); } out+=r+__log+\"|\";", strings.Join(rets, ","), call)
+			if pre != "" {
+				sb.WriteString(" } finally { " + post + " }")
+			}
 		default:
 			panic("bad step " + st)
 		}
@@ -525,6 +592,11 @@ func genC08(c *h.Ctx) {
 	// 8. toLocaleString: elements whose toLocaleString logs its this, arguments.length and arguments
 	for i := 0; i < c.N(8000, 250000); i++ {
 		genLocale(c)
+	}
+	// 9. functions looked up on the receiver and called: toString -> the join it finds (own, inherited, from an accessor,
+	// not callable), reached by a call or through ToPrimitive; join -> toString of elements that are scripted objects
+	for i := 0; i < c.N(8000, 250000); i++ {
+		genJoinProp(c)
 	}
 	// 4. length scenarios: non-configurable elements, non-writable length, then length changes
 	for i := 0; i < c.N(6000, 150000); i++ {
@@ -716,7 +788,121 @@ func genLocale(c *h.Ctx) {
 	c.Add(line, keys...)
 }
 
+func genJoinProp(c *h.Ctx) {
+	r := c.Rng
+	n := r.Intn(5)
+	es := make([]string, n)
+	for i := range es {
+		switch k := r.Intn(20); {
+		case k < 3:
+			es[i] = "_"
+		case k < 8:
+			es[i] = "O" + strconv.Itoa(1+r.Intn(6))
+		case k < 11:
+			es[i] = sTok("x")
+		default:
+			es[i] = genElem(r)
+		}
+	}
+	var line string
+	var srcs, modes []string
+	isArr := false
+	keys := []string{"joinprop"}
+	switch k := r.Intn(20); {
+	case k < 14:
+		line = "h a=" + strings.Join(es, ",") + " p="
+		isArr = true
+		srcs = []string{"b", "own", "own", "ownb", "nc", "und", "acc", "acc", "accb", "accn", "proto", "proto", "pdel"}
+		modes = []string{"call", "call", "add", "str", "eq", "key"}
+		keys = append(keys, "joinprop:array")
+	case k < 18:
+		l := dTok(float64(n))
+		if r.Chance(15) {
+			l = []string{sTok(strconv.Itoa(n)), dTok(float64(n) + 0.5), "u", "-", dTok(float64(n + 1))}[r.Intn(5)]
+		}
+		line = "h o=" + l + "|" + strings.Join(es, ",") + " p="
+		srcs = []string{"none", "own", "own", "ownb", "nc", "und", "acc", "accb", "accn"}
+		modes = []string{"call"}
+		keys = append(keys, "joinprop:like")
+	default:
+		line = "h v=" + c08Prims[r.Intn(len(c08Prims))] + " p="
+		srcs = []string{"none", "proto", "proto"}
+		modes = []string{"call"}
+		keys = append(keys, "joinprop:prim")
+	}
+	prim := func() string {
+		switch k := r.Intn(16); {
+		case k == 0:
+			return "!T"
+		case k == 1:
+			return "!R"
+		case k < 5:
+			return []string{"u", "n", "T", dTok(math.NaN()), dTok(2.5), dTok(1), dTok(math.Copysign(0, -1))}[r.Intn(7)]
+		}
+		return []string{sTok("x"), sTok("x"), sTok("y"), sTok(""), sTok("1,2"), sTok("z")}[r.Intn(6)]
+	}
+	eff := func() string {
+		if !isArr || r.Chance(80) {
+			return "-"
+		}
+		switch r.Intn(3) {
+		case 0:
+			return "p" + genElem(r)
+		case 1:
+			return "l" + dTok(float64(r.Intn(n+2)))
+		}
+		return "d" + strconv.Itoa(r.Intn(n+1))
+	}
+	for st := 1 + r.Intn(3); st > 0; st-- {
+		var script []string
+		var m string
+		var args []string
+		user := false
+		if r.Chance(25) {
+			// join itself: its separator, then every element is converted in turn
+			m = "join"
+			if r.Chance(50) {
+				args = append(args, []string{sTok("-"), "u", sTok(""), "O8"}[r.Intn(4)])
+			}
+			keys = append(keys, "joinprop:join")
+		} else {
+			src := srcs[r.Intn(len(srcs))]
+			mode := modes[r.Intn(len(modes))]
+			m = "toString." + mode + "." + src
+			user = src == "own" || src == "acc" || src == "proto"
+			if mode == "call" {
+				for j := []int{0, 0, 0, 1, 2}[r.Intn(5)]; j > 0; j-- {
+					args = append(args, genSurplus(r))
+				}
+			}
+			keys = append(keys, "joinprop:"+mode, "joinprop:src:"+src)
+		}
+		for j := r.Intn(n + 3); j > 0; j-- {
+			e := eff() + "~" + prim()
+			if user && len(script) == 0 && r.Chance(25) {
+				// what the script's join returns is the result of toString: an object too
+				res := "O40"
+				if isArr && r.Chance(50) {
+					res = "R"
+				}
+				e = eff() + "~" + res
+			}
+			script = append(script, e)
+		}
+		line += " call/" + m + "/" + strings.Join(args, ",") + "//" + strings.Join(script, ",")
+	}
+	c.Add(line, keys...)
+}
+
 var c08WeirdKeys = []string{"01", "00", "+1", "-0", "+0", "-1", "1.0", "1e0", " 1", "x", "007", "+3", "4294967294", "4294967295", "4294967296", "04", "+4294967294"}
+
+// keyTok: "#N<number token>" is a numeric subscript, everything else a string key
+func keyTok(key string) string {
+	if strings.HasPrefix(key, "#N") {
+		return key[1:]
+	}
+	return kTok(key)
+}
 
 func genHistory(c *h.Ctx) {
 	r := c.Rng
@@ -746,9 +932,13 @@ func genHistory(c *h.Ctx) {
 	keys := []string{"hist"}
 	huge := false
 	genKey := func() string {
-		switch r.Intn(10) {
+		switch r.Intn(11) {
 		case 0:
 			return "length"
+		case 10:
+			// a number as subscript: ToString(-0) is "0", ToString(2.5) is not an index
+			return "#N" + []string{dTok(math.Copysign(0, -1)), dTok(math.Copysign(0, -1)), dTok(0), dTok(1), dTok(float64(n)), dTok(-1), dTok(2.5),
+				dTok(math.NaN()), dTok(math.Inf(1)), dTok(float64(r.Intn(n + 3)))}[r.Intn(10)]
 		case 1:
 			k := c08WeirdKeys[r.Intn(len(c08WeirdKeys))]
 			if strings.Contains(k, "42949672") {
@@ -786,11 +976,11 @@ func genHistory(c *h.Ctx) {
 				}
 				v = genLenVal()
 			}
-			st = "put/" + kTok(key) + "/" + v
+			st = "put/" + keyTok(key) + "/" + v
 			keys = append(keys, "step:put")
 		case k < 5:
 			key := genKey()
-			st = "del/" + kTok(key)
+			st = "del/" + keyTok(key)
 			keys = append(keys, "step:del")
 		case k < 8:
 			key := genKey()
@@ -806,7 +996,7 @@ func genHistory(c *h.Ctx) {
 				v = "-"
 			}
 			w, e, cc := tri(), tri(), tri()
-			st = "def/" + kTok(key) + "/" + v + "/" + w + "/" + e + "/" + cc
+			st = "def/" + keyTok(key) + "/" + v + "/" + w + "/" + e + "/" + cc
 			keys = append(keys, "step:def")
 		case k == 8:
 			st = []string{"frz", "seal", "noext"}[r.Intn(3)]
